@@ -2,6 +2,7 @@
    Only property theorems here. All schedules, all item / worker counts, all user code. *)
 From Flyt Require Import Base Script FlowTable Engine BatchConc EngineCorr EngineFacts
      ItemMon BatchConcInv BatchConcItems C02Proofs.
+From Flyt Require Import C07Glue.
 
 (* In every reachable state, under every schedule, what has been done on behalf of item i is a
    (prefix of a) processing of item i in the sense of the per-item monitor: exec attempts with
@@ -38,10 +39,7 @@ Theorem C07_one_worker_per_item :
   forall (o : oracle) c nd (items : list val) stopmode nworkers qcap s0 sched k k' i pc pc',
     let s := brun o c nd items stopmode qcap (binit items nworkers s0) sched in
     nth_error (ws s) k = Some (WRun i pc) -> nth_error (ws s) k' = Some (WRun i pc') -> k = k'.
-Proof.
-  intros. eapply (one_worker_per_item items nworkers); eauto.
-  apply brun_inv. apply binit_inv.
-Qed.
+Proof. exact C07_one_worker_per_item_glue. Qed.
 Print Assumptions C07_one_worker_per_item.
 
 (* the sequential path and each item's retry loop: the budget-exact counting theorem of C02 *)
